@@ -688,6 +688,9 @@ class Fn:
                 if n and n[0] == "mcall" and n[1][0] == "path" and len(n[1][1]) == 1 and (n[1][1][0] + "." + n[2]) in self.spec.get("state_calls", {}):
                     if self.spec["state"] not in out:
                         out.append(self.spec["state"])
+                if n and n[0] == "mcall" and n[1][0] == "path" and len(n[1][1]) == 1 and (n[1][1][0] + "." + n[2]) in self.spec.get("updates", {}):
+                    if n[1][1][0] not in out:
+                        out.append(n[1][1][0])
                 if n and n[0] == "expr" and n[1][0] == "mcall" and n[1][2] in MUTATORS:
                     v = root(n[1][1])
                     if v is not None and v not in out:
@@ -737,10 +740,17 @@ class Fn:
                 self.handles[s[1][1]] = ptxt
                 rest_txt = after(dict(env, **{s[1][1]: "File"}))
                 return ("let effs := effs ++ [%s] in %s" % (self.apply(tmpl, [ptxt]), rest_txt)) if tmpl else rest_txt
-        if k == "expr" and s[1][0] == "mcall" and s[1][1][0] == "path" and len(s[1][1][1]) == 1 and (s[1][1][1][0] + "." + s[1][2]) in self.spec.get("updates", {}):
-            v = s[1][1][1][0]
-            tmpl = self.spec["updates"][v + "." + s[1][2]]
-            return "let %s := %s in %s" % (self.var(v), self.apply(tmpl, [self.var(v)] + [self.ex(a, env) for a in s[1][3]]), after(env))
+        su = s[1] if k == "expr" else None
+        while su is not None and ((su[0] == "try" and self.spec.get("try_transparent")) or (su[0] == "field" and su[2] == "await")):
+            su = su[1]
+        if su is not None and su[0] == "mcall" and su[1][0] == "path" and len(su[1][1]) == 1 and (su[1][1][0] + "." + su[2]) in self.spec.get("updates", {}):
+            v = su[1][1][0]
+            tmpl = self.spec["updates"][v + "." + su[2]]
+            return "let %s := %s in %s" % (self.var(v), self.apply(tmpl, [self.var(v)] + [self.ex(a, env) for a in su[3]]), after(env))
+        # `obj.check()?;` where a failure leaves the function with a fixed value
+        if su is not None and s[1][0] == "try" and su[0] == "mcall" and ("." + su[2]) in self.spec.get("try_checks", {}):
+            tmpl, errv = self.spec["try_checks"]["." + su[2]]
+            return "if %s then %s else %s" % (self.apply(tmpl, [self.ex(su[1], env)] + [self.ex(a, env) for a in su[3]]), paren(after(env)), ctx.ret(errv) if False else errv)
         if k == "let" and s[1][0] == "pbind" and s[3] is not None and self.spec.get("effects"):
             le = self.effect_of(("expr", s[3], True), env)
             if le is not None:
@@ -806,7 +816,8 @@ class Fn:
                 ps, add = self.pat(pat, env, st)
                 other = self.block(els, env, Ctx(val=None, ret=ctx.ret, fall=None, cont=ctx.cont))
                 return "match %s with %s => %s | _ => %s end" % (self.ex(e, env), ps, after(dict(env, **add)), other)
-            if pat[0] == "pbind" and e[0] == "try" and not self.spec.get("try_transparent"):
+            opt_try = e[0] == "try" and e[1][0] == "call" and e[1][1][0] == "path" and "::".join(e[1][1][1]) in self.spec.get("opt_try_calls", ())
+            if pat[0] == "pbind" and e[0] == "try" and (opt_try or not self.spec.get("try_transparent")):
                 # `let x = e?;` in a function returning Option: None propagates
                 inner = e[1]
                 it = self.ty(inner, env)
@@ -815,7 +826,7 @@ class Fn:
                 none = self.spec.get("try_none")
                 if none is None:
                     raise Unsupported("`?` in a function without a propagation value")
-                return "match %s with Some %s => %s | None => %s end" % (self.ex(inner, env), self.var(pat[1]), after(dict(env, **{pat[1]: tt})), none)
+                return "match %s with Some %s => %s | None => %s end" % (self.ex(inner, env), self.var(pat[1]), after(dict(env, **{pat[1]: tt})), ctx.ret(none) if opt_try and ctx.ret else none)
             if pat[0] == "pbind":
                 tt = t or self.ty(e, env)
                 conv = self.spec.get("let_conv", {}).get(pat[1])
@@ -873,7 +884,7 @@ class Fn:
             if op == "=":
                 val = self.ex(e, env)
             elif op == "+=":
-                if env.get(v) not in ("usize", "int"):
+                if env.get(v) not in ("usize", "int") and v not in self.spec.get("exact_add", ()):
                     raise Unsupported("+= at type %s" % env.get(v))
                 val = "(%s + %s)" % (self.var(v), self.ex(e, env))
             else:
@@ -927,6 +938,24 @@ class Fn:
                 if getattr(ctx, "cont", None) is None:
                     raise Unsupported("continue outside a loop")
                 return ctx.cont(env)
+            if e[0] == "macro" and e[1] == "debug_assert_eq" and self.spec.get("debug_asserts"):
+                # the checked build panics when the two sides differ: `if checked && negb (a = b) then <panic> else ...`
+                parts, cur, depth = [], [], 0
+                for tk in e[2]:
+                    depth += tk[1] in ("(", "[", "{") and tk[0] == "op"
+                    depth -= tk[1] in (")", "]", "}") and tk[0] == "op"
+                    if tk == ("op", ",") and depth == 0:
+                        parts.append(cur)
+                        cur = []
+                    else:
+                        cur.append(tk)
+                if cur:
+                    parts.append(cur)
+                if len(parts) < 2:
+                    raise Unsupported("debug_assert_eq! with %d arguments" % len(parts))
+                a, b = R.Parser(parts[0]).expr(), R.Parser(parts[1]).expr()
+                flag, panic = self.spec["debug_asserts"]
+                return "if %s && negb (%s) then %s else %s" % (flag, self.ex(("bin", "==", a, b), env), panic, paren(after(env)))
             if e[0] == "macro" and e[1] in ("debug_assert", "debug_assert_eq", "debug_assert_ne"):
                 return after(env)
             if e[0] == "macro" and e[1] in ("println", "eprintln") and self.spec.get("prints_ignored"):
@@ -1419,6 +1448,79 @@ def functions():
         return translate_fn(src, "validate", "Delta", spec, "g_delta_validate", "(d : delta digest)", "bool", self_type="Delta")
     out.append(("delta_validate", "src/delta.rs Delta::validate", "digest_only", t_dvalidate))
 
+    PATCH_READ_BLOCK = """{
+    basis.seek(SeekFrom::Start(*offset))?;
+    let mut buffer = vec![0u8; *len as usize];
+    basis.read_exact(&mut buffer)?;
+}"""
+
+    def patch_spec(awaiting):
+        return dict(try_transparent=True, debug_asserts=("checked", "PPanic"),
+                    fields={("Delta", "ops"): ("(d_ops _ {0})", "Vec<DeltaOp>"), ("Delta", "source_size"): ("(d_source_size _ {0})", "u64"),
+                            ("Delta", "checksum"): ("(d_checksum _ {0})", "StrongHash"),
+                            ("CopiaSync", "config"): ("{0}", "SyncConfig"), ("AsyncCopiaSync", "config"): ("{0}", "SyncConfig"),
+                            ("SyncConfig", "verify_checksum"): ("verify (* {0} *)", "bool")},
+                    structs={"DeltaOp::Copy": ("Copy", ["offset", "len"], ["u64", "u32"]), "DeltaOp::Literal": ("Lit", ["0"], ["Vec<u8>"])},
+                    paths={"DeltaOp::Literal": "Lit"},
+                    calls={".expected_output_size": ("out_len (d_ops _ {0})", "u64"), "blake3::Hasher::new": ("[]", "Hasher"),
+                           "READ_AT": ("read basis {0} {1}", "Option<Vec<u8>>"), "u64::from": ("{0}", "u64"),
+                           ".finalize": ("H {0}", "Hash"), ".as_bytes": ("{0}", "Hash"), "StrongHash::from_bytes": ("{0}", "StrongHash")},
+                    try_checks={".validate": ("g_delta_validate digest {0}", "PErrBounds")},
+                    updates={"output.write_all": "{0} ++ {1}", "hasher.update": "{0} ++ {1}"},
+                    eq={"StrongHash": "digest_eqb digest deq", "u64": "Z.eqb"}, try_none="PErrIo", opt_try_calls=("READ_AT",),
+                    rename={"self": "tt", "output": "output"},
+                    # bytes_written is read by the closing debug assertion only: in the checked profile a sum that leaves u64
+                    # panics at the addition, the exact sum fails the assertion - the same outcome (PPanic, no result)
+                    exact_add=("bytes_written",),
+                    ok=lambda s_: "POk output", errs=[(r"ChecksumMismatch", "PErrChecksum")])
+
+    def t_patch(path, within, gname, self_type):
+        def go():
+            src = read(path)
+            params, ret, body = R.find_fn(src, "patch", within)
+            want = R.Parser(R.tokenize(PATCH_READ_BLOCK)).block()[1]
+            norm = lambda x: json.loads(json.dumps(x))
+            found = []
+            def strip_await(n):
+                if isinstance(n, tuple):
+                    if len(n) == 3 and n[0] == "field" and n[2] == "await":
+                        return strip_await(n[1])
+                    if len(n) == 2 and n[0] == "path" and list(n[1]) == ["std", "io", "SeekFrom", "Start"]:
+                        return ("path", ["SeekFrom", "Start"])
+                    return tuple(strip_await(x) for x in n)
+                if isinstance(n, list):
+                    return [strip_await(x) for x in n]
+                return n
+            def rewrite(n):
+                if isinstance(n, tuple):
+                    if n and n[0] == "block":
+                        ss = list(n[1])
+                        for i in range(len(ss)):
+                            if norm(strip_await(ss[i:i + 3])) == norm(want):
+                                found.append(1)
+                                ss[i:i + 3] = [("let", ("pbind", "buffer"), None, ("try", ("call", ("path", ["READ_AT"]), [("path", ["offset"]), ("path", ["len"])])), None)]
+                                break
+                        return ("block", [rewrite(x) for x in ss], rewrite(n[2]) if n[2] is not None else None)
+                    return tuple(rewrite(x) for x in n)
+                if isinstance(n, list):
+                    return [rewrite(x) for x in n]
+                return n
+            body2 = rewrite(body)
+            if len(found) != 1:
+                raise Unsupported("patch: a Copy is no longer served by `basis.seek(SeekFrom::Start(*offset))?; let mut buffer = vec![0u8; *len as usize]; basis.read_exact(&mut buffer)?;`")
+            got = [(n, norm_type(t_).replace("mut", "").strip()) for n, t_ in params]
+            if [n for n, _ in got] != ["self", "basis", "delta", "output"]:
+                raise Unsupported("signature of patch is %s" % got)
+            spec = patch_spec(False)
+            fn = Fn(dict(spec, self_type=self_type))
+            env = {"self": self_type, "basis": "R", "delta": "Delta", "output": "Vec<u8>"}
+            text = "let output := [] in " + fn.block(body2, env, Ctx(val=(lambda x: x), ret=(lambda x: x), fall=None))
+            return "Definition %s (checked verify : bool) (basis : list Z) (delta : Delta.delta digest) : presult :=\n  %s." % (gname, text)
+        go.__name__ = gname
+        return go
+    out.append(("patch", "src/sync.rs CopiaSync::patch", None, t_patch("src/sync.rs", "Sync for CopiaSync", "g_patch", "CopiaSync")))
+    out.append(("async_patch", "src/async_sync.rs AsyncCopiaSync::patch", None, t_patch("src/async_sync.rs", "AsyncCopiaSync", "g_async_patch", "AsyncCopiaSync")))
+
     def t_safe_join():
         src = read("src/bin/copia/serve.rs")
         spec = dict(signature=[("root", "Path"), ("rel", "str")],
@@ -1452,6 +1554,7 @@ GROUPS = {
     "Plan": ("Model.Glob Model.Plan", False, ["needs_transfer", "glob_match", "is_excluded", "build_plan"]),
     "Protocol": ("Model.Checksum Model.Delta Model.Protocol", False, ["from_u8", "hvalidate"]),
     "DeltaV": ("Model.Checksum Model.Delta", True, ["delta_validate"]),
+    "Patch": ("Model.Checksum Model.Delta Gen.DeltaVGen", "patch", ["patch", "async_patch"]),
     "SafeJoin": ("Model.SafeJoin", False, ["safe_join"]),
 }
 
@@ -1511,6 +1614,9 @@ def main():
                     "Definition cput (t : tree) (p : K) (e : option D) (c : list Z) (h : D) : tree * bool :=\n"
                     "  let '(t', rp) := spec Hh cname t (Put p e h (Z.of_nat (length c)) [c]) in (t', is_committed rp).\n"
                     "Definition deq_ob (x y : option D) : bool := bool_decide (x = y).\n\n" + "\n".join(texts) + "End WithClient.\n")
+        elif digest == "patch":
+            body += ("\nSection WithDigest.\nVariable digest : Type.\nVariable H : list Z -> digest.\nVariable deq : forall x y : digest, {x = y} + {x <> y}.\n"
+                     "Notation presult := Delta.presult.\nNotation read := Delta.read.\nNotation out_len := Delta.out_len.\n\n" + "\n".join(texts) + "End WithDigest.\n")
         elif digest == "archivesys":
             body = (HEADER % (group, imports)) + "\nSection WithFs.\nVariable path_exists : apath -> bool.   (* path.exists() *)\n\n" + "\n".join(texts) + "End WithFs.\n"
         elif digest == "onewaysys":
